@@ -1,6 +1,6 @@
 PROP = dict(
     gen=["charsets", "detect", "knownbad"],
-    proof_files=["Properties/C09.v", "Proofs/DetectProofs.v", "Proofs/DetectBits.v", "Proofs/CharsetProofs.v", "Proofs/CharsetRoundtrip.v", "Proofs/ComposePipeline.v", "Proofs/PipelineFull.v", "Model/IntervalMap.v"],
+    proof_files=["Properties/C09.v", "Proofs/DetectProofs.v", "Proofs/DetectBits.v", "Proofs/CharsetProofs.v", "Proofs/CharsetRoundtrip.v", "Proofs/ComposePipeline.v", "Proofs/DetectGsm7Agree.v", "Proofs/PipelineFull.v", "Model/IntervalMap.v"],
     model_files=["Model/Detect.v", "Model/Charset.v", "Model/Splitter.v", "Model/Compose.v", "Model/ComposePipeline.v"],
     trusted=["Gen/Detect.v is the complete per-rune tabulation of DataCoding.Validate (7 codings), BestCoding, BestSafeCoding, the GSM 7-bit "
              "encoder and the splitter widths over all 1,112,064 scalar values (dumper: harness/gen_detect.go); Gen/Charsets.v as for C17",
